@@ -28,6 +28,9 @@ public:
 	virtual void LoadShapes(Shapes& sh, const BitSerializer::SerializationOptions& o, IoIn in) = 0;
 };
 
+// passing this object as the options means "call the library without an options argument" (its own DefaultOptions)
+extern const BitSerializer::SerializationOptions kLibraryDefaults;
+
 ArchiveOps& GetOps(int archiveId);
 ArchiveOps& MsgPackOps();
 ArchiveOps& JsonOps();
